@@ -136,6 +136,7 @@ static size_t g_file_size; static uint32_t g_file_header; static size_t g_buf_el
 static inline void FILE_READ_U32(unsigned *dst) { *dst = g_file_header; }
 #define FILE_READ_BUFFER(n) do { g_read_bytes = (n); } while (0)      /* istream::read into buffer.data(): at most n bytes, the rest of the zero-initialised vector stays 0 */
 #define TB_MEMCPY_TO_DUT(n) do { g_memcpy_bytes = (n); } while (0)    /* std::memcpy(memory_q.data(), buffer.data(), n) */
+#define TB_MEMZERO_DUT(n) ((void)(n))                                  /* zero fill before the copy: C13 load.determined */
 #define TB_BANNER(n) do { g_banner = (n); } while (0)
 TB_LOAD_FN
 void h_tb_load(void) {
